@@ -534,10 +534,12 @@ MANIFEST_TEXT = {
     "C03": {
         "text": "Proved on the real code for any table size: the per-page reservation counts exactly the subline heading, the headers that have "
                 "text, the footnote and the source; every row's data_rows is at least the line count of each displayed cell measured at that cell's "
-                "own font and size against its own column width (and at least 1); totals add page_by heading rows only at group starts; the greedy "
-                "assignment keeps each page's total within nrow minus the reservation unless the page is a single row.",
-        "note": "The rendered-vs-reserved comparison for headers / continuation headings / table-rendered components depends on renderer carriers "
-                "not yet under contract; it is listed as open, not claimed.",
+                "own font and size against its own column width (and at least 1); a group-start row budgets one heading row per page_by level "
+                "rendered there, and every row records the heading rows shown when it opens a page; the greedy assignment keeps each page's total "
+                "(rows of its data rows plus the page-top headings of its first row) within nrow minus the reservation unless the page is a single row; "
+                "a column header row is rendered only for a header the reservation counted.",
+        "note": "Known finding: the auto-populated default column header is rendered but not reserved. The row counts of table-rendered footnote / "
+                "source (one row each, reserved when they have text) are compared through the render contract's presence clauses only.",
     },
     "C04": {
         "text": "Unbounded proof on the real AST of PageBreakCalculator._assign_pages: a 14-clause loop invariant (ghost prefix sums and "
